@@ -457,7 +457,8 @@ class WGen:
             self.good(nb, cl=target["cl"], tx=target["tx"])
         self.step(None)
         if r.random() < 0.5:
-            self.decoy(target["tx"])
+            self.decoy(target["tx"])      # in a step of its own: it must not be mistaken for the genuine request below
+            self.step(None)
         self.op(op="req", tx=target["tx"] if kind != "unknown-tx" else 9999)
         if kind == "orphan-race":
             self.step(r.choice(["status", "events-tx"]), 1)
